@@ -12,7 +12,8 @@ from ..common import Ctx, Scheme
 
 FAULTS = ["dup_inter_same_deps", "dup_inter_diff_deps", "dup_cross_comp", "state_param_same_value", "state_param_diff_value",
           "state_vs_inter", "param_vs_inter", "dup_deriv", "dup_state_diff_value", "dup_param_diff_value", "missing_deriv",
-          "orphan_deriv", "undefined_symbol", "cycle", "self_cycle", "deriv_other_comp", "dup_inter_comment_differs"]
+          "orphan_deriv", "undefined_symbol", "cycle", "self_cycle", "deriv_other_comp", "dup_inter_comment_differs",
+          "state_param_same_value_cross_comp", "dup_deriv_two_tags", "undeclared_parameter", "dup_inter_two_tags"]
 
 
 def blocks_text(blocks, header=None):
@@ -81,6 +82,32 @@ def inject(rng: random.Random, m: gen.GModel, kind: str):
         val = r(v) if kind.endswith("same_value") else "123.25"
         blocks.append(("parameters", c, [f"{s}={val}"]))
         return blocks_text(blocks), f"{s} is both a state and a parameter ({'same' if kind.endswith('same_value') else 'different'} value)"
+    if kind == "state_param_same_value_cross_comp":
+        s = rng.choice(states)
+        v, c = m.states[s]
+        blocks.append(("parameters", "Zother" if c != "Zother" else "Zmore", [f"{s}={r(v)}"]))
+        return blocks_text(blocks), f"{s} is a state in {c!r} and a parameter (same value) in another component"
+    if kind in ("dup_deriv_two_tags", "dup_inter_two_tags"):
+        # an atom tagged with two components, and a second, different definition under each tag
+        e1 = r(gen.gen_expr(rng, states + params, 1))
+        if kind == "dup_deriv_two_tags":
+            text = blocks_text(blocks) + f'states("Ta", "Tb", uu=1.5)\nexpressions("Ta")\nduu_dt = {e1}\nexpressions("Tb")\nduu_dt = {e1} + 1\n'
+            return text, "duu_dt defined differently under two component tags of its state"
+        text = blocks_text(blocks) + f'expressions("Ta")\nww = {e1}\nexpressions("Tb")\nww = {e1} + 1\n'
+        return text, "ww defined differently in two components"
+    if kind == "undeclared_parameter":
+        used = [p for p in params if any(p in sexp.fv(e) for e, _ in m.assigns.values())]
+        if not used:
+            return None
+        p = rng.choice(used)
+        nb = []
+        for k, c, lines in blocks:
+            if k == "parameters":
+                lines = [ln for ln in lines if not ln.startswith(f"{p}=")]
+                if not lines:
+                    continue
+            nb.append((k, c, lines))
+        return blocks_text(nb), f"parameter {p} is used but its declaration was deleted (every right-hand side unchanged)"
     if kind == "state_vs_inter":
         s = rng.choice(states)
         blocks[expr_block(m.states[s][1])][2].append(f"{s} = 2.5")
@@ -246,8 +273,16 @@ for t in texts:
         py = gotran2py.get_code(ode, format=Format.none, scheme=sch)
         c = gotran2c.get_code(ode, format=CFormat.none, scheme=sch)
         jx = gotran2py.get_code(ode, format=Format.none, scheme=sch, backend=gotran2py.Backend.jax)
+        py_ru = gotran2py.get_code(ode, format=Format.none, scheme=sch, remove_unused=True)
+        # repetition in the same process (after another model was handled) gives the same bytes
+        ode_b = ode_from_string("states(qq=1)\nparameters(kk=2)\ndqq_dt = -kk*qq\n")
+        gotran2py.get_code(ode_b, format=Format.none, scheme=sch)
+        again = gotran2py.get_code(ode_from_string(t), format=Format.none, scheme=sch)
+        if again != py:
+            py_ru += "\n# REPETITION-DIFFERS\n" + again
         direct += cg.scheme(get_scheme("explicit_euler")) + cg.scheme(gotranx.schemes.generalized_rush_larsen)
-        out.append({"py": py, "c": c, "jax": jx, "direct": direct, "states": [s.name for s in ode.sorted_states()]})
+        out.append({"py": py, "c": c, "jax": jx, "direct": direct, "py_ru": py_ru, "repeat_ok": again == py,
+                    "states": [s.name for s in ode.sorted_states()]})
     except Exception as ex:
         out.append({"error": type(ex).__name__})
 json.dump(out, open(sys.argv[3], "w"))
@@ -291,7 +326,11 @@ def c09_batch(ctx: Ctx, texts, seeds, histories=("fresh", "warm")):
                 continue
             if "error" in a:
                 continue
-            for part in ("states", "py", "c", "jax", "direct"):
+            for res_, key_ in ((a, base_key), (b, key)):
+                if not res_.get("repeat_ok", True):
+                    ctx.violate("C09/repetition/py", f"generating the same text twice in one process (PYTHONHASHSEED={key_[0]}, {key_[1]}) gives different bytes",
+                                case={"text": text, "seeds": [key_[0]], "history": key_[1]})
+            for part in ("states", "py", "c", "jax", "direct", "py_ru"):
                 if a[part] != b[part]:
                     why = "history" if key[0] == base_key[0] else "hashseed"
                     ctx.violate(f"C09/{why}/{'layout' if part == 'states' else part}",
@@ -355,6 +394,9 @@ def c09_run(ctx: Ctx):
         cfg = gen.ModelCfg(max_inters=9, max_states=5, max_params=4, depth=2, max_comps=2)
         cfg.expr = gen.ExprCfg(p_cond=0.05, p_ccond=0.0, p_mod=0.0, p_floor=0.0, p_relnum=0.0)
         texts.append(gen.gen_model(ctx.rng, cfg).text(ctx.rng))
+    # names that coincide with the helper names of the schemes
+    texts.append("states(m=0.1, h=0.6)\nparameters(am=2.0, bm=0.5)\ndm_dt_linearized = -(am + bm)\nminf = am/(am + bm)\n"
+                 "dm_dt = (minf - m)*(am + bm) + 0*dm_dt_linearized\ndh_dt = -h*m\n")
     seeds = list(range(6)) if not ctx.thorough else list(range(32))
     c09_batch(ctx, texts, seeds)
     for t in texts:
